@@ -197,13 +197,7 @@ func (x *nsExec) step(op nsOp) {
 		}
 		n.stop()
 		x.quiesce()
-		sh, sr, err := n.sms.StateMachineHeightRound(x.ctx)
-		if err != nil {
-			sh, sr = x.c.H0, 0
-		}
-		x.restartSM[n.idx] = nsHR{sh, sr}
-		_, _, _, _, ferr := n.fs.LoadFinalizationByHeight(x.ctx, sh)
-		x.restartBump[n.idx] = err == nil && ferr == nil
+		x.restartSM[n.idx] = x.restartEntry(n)
 		n.mu.Lock()
 		n.incarnation++
 		n.finsThisInc = 0
@@ -961,7 +955,6 @@ func nsRunCase(t *testing.T, st *vk.Stats, c nsCase) nsOutcome {
 		x.seenPH = make([]map[string]struct{}, nn)
 		x.delivered = make([][]*nsMsg, nn)
 		x.restartSM = make([]nsHR, nn)
-		x.restartBump = make([]bool, nn)
 		x.maxDeliveredHR = make([]nsHR, nn)
 		for i := 0; i < nn; i++ {
 			x.seenSig[i] = map[string]struct{}{}
